@@ -83,7 +83,8 @@ def run(ctx):
         paths = paths + g.switch_cover(maxlen=40, budget=60000, rng=rng)[0]
     states, trans = r['distinct'], r['generated']
     # M with restarts and timers (no dump)
-    r2 = ctx.tlc('Pair.tla', 'p2.cfg', workers=16, timeout=3000, files={'p2.cfg': CFG % ((2, 1, 1, 1) if quick else (3, 2, 1, 2))})
+    # measured: (3,1,1,1) 1.1 M distinct states in 71 s; (3,2,1,1) 8.4 M in 12 min; (2,2,1,2) more than 11 M, not finished in 15 min
+    r2 = ctx.tlc('Pair.tla', 'p2.cfg', workers=16, timeout=5400, files={'p2.cfg': CFG % ((2, 1, 1, 1) if quick else (3, 2, 1, 1))})
     ctx.tlc_ok(r2, 'Pair M (restarts, timers)')
     states += r2['distinct']
     trans += r2['generated']
